@@ -475,11 +475,15 @@ def clause_index_scan_bounds(R, F, only_methods=None):
     from terms import calls_in as _calls_in
     db = roles.database_struct(F)
     n = 0
-    for fn in F.fns.values():
+    from facts import is_private_helper
+    for fn in list(F.fns.values()):
         if fn.kind != "method" or fn.j.get("self_ty") != db["name"] or not fn.blocks:
             continue
         if only_methods is not None and fn.j.get("method") not in only_methods:
             continue
+        if is_private_helper(fn):
+            continue            # a shared private scan helper is read in each of its callers (inlined below)
+        fn = F.inlined(fn)
         for c in calls_on_field(fn, {"get_range"}).get("db_number_and_index_to_tx_hash", []):
             n += 1
 
